@@ -45,6 +45,8 @@ func addMod(m map[string]bool, name string, write bool) bool {
 }
 
 func (w *World) computeMods() {
+	w.computingMods = true
+	defer func() { w.computingMods = false }()
 	w.mods = map[*ssa.Function]map[string]bool{}
 	var fns []*ssa.Function
 	for _, fn := range w.allFns {
@@ -155,6 +157,9 @@ func assignsToMods(con *Contract) map[string]bool {
 }
 
 func (w *World) fnMods(fn *ssa.Function) map[string]bool {
+	if w.mods == nil && !w.computingMods {
+		w.computeMods() // never answer from a half-built table: results must not depend on call order
+	}
 	sel := shortName(fn.String())
 	if con := w.cons[sel]; con != nil && (con.Pure || con.HasAssign) {
 		m := assignsToMods(con)
@@ -309,6 +314,11 @@ func (w *World) instrModsIn(in ssa.Instruction, m map[string]bool, scope func(*s
 				return
 			}
 			addMod(m, "P$"+w.sortOf(pt.Elem(), d), true)
+			// a pointer of unknown origin to a non-struct value may designate a struct field of
+			// that type (the executor forgets those field heaps at such a store, see Exec.store)
+			for _, hn := range w.fieldHeapsOfType(pt.Elem()) {
+				addMod(m, hn, true)
+			}
 		}
 	case *ssa.Alloc:
 		if !in.Heap {
